@@ -147,6 +147,78 @@ fn tap_cases(base: &MpcCase, corrupt: usize) -> Vec<Case> {
     v
 }
 
+fn flip_leaves(v: &crate::wire::Val, prefix: &mut Vec<usize>, out: &mut Vec<(Vec<usize>, TreeMut)>) {
+    use crate::wire::Val;
+    match v {
+        Val::Bool(_) | Val::U8(_) | Val::U32(_) | Val::U128(_) | Val::B16(_) => out.push((prefix.clone(), TreeMut::FlipBit(0))),
+        Val::Opt(Some(x)) => {
+            prefix.push(0);
+            flip_leaves(x, prefix, out);
+            prefix.pop();
+        }
+        Val::Tup(xs) | Val::Seq(xs) => {
+            for (i, x) in xs.iter().enumerate().take(6) {
+                prefix.push(i);
+                flip_leaves(x, prefix, out);
+                prefix.pop();
+            }
+        }
+        _ => {}
+    }
+}
+
+/// Rushing adversary: in every round in which all parties send each other a message with the same
+/// label, the cheater waits for the honest messages and answers with their XOR (n = 2: reflects the
+/// victim's message) - alone, and combined with a value change in one of the three message kinds it
+/// sent before that round (all leaves of one element flipped, every occurrence or the first only).
+fn rush_cases(base: &MpcCase, corrupt: usize, msgs: &[crate::sim::net::MsgRec]) -> Vec<Case> {
+    use crate::adv::RushSpec;
+    let n = base.n();
+    let mut labels: Vec<String> = vec![];
+    for m in msgs.iter().filter(|m| m.from == corrupt) {
+        if !labels.contains(&m.label) {
+            labels.push(m.label.clone());
+        }
+    }
+    let mut out = vec![];
+    for (li, l) in labels.iter().enumerate() {
+        let symmetric = (0..n).filter(|j| *j != corrupt).all(|j| msgs.iter().any(|m| m.from == j && m.to == corrupt && m.label == *l));
+        if !symmetric {
+            continue;
+        }
+        let rush = vec![RushSpec { label: l.clone(), occ: None }];
+        let mk = |faults: Vec<Fault>| Case { attack: AttackCase { faults, rush: rush.clone(), ..AttackCase::honest(base.clone(), corrupt) }, label: format!("rush:{l}"), repeat: 1 };
+        out.push(mk(vec![]));
+        for prev in labels[li.saturating_sub(3)..li].iter() {
+            let Some(pm) = msgs.iter().find(|m| m.from == corrupt && m.label == *prev) else { continue };
+            let Some(crate::wire::Val::Seq(elems)) = decode(pm) else { continue };
+            if elems.is_empty() {
+                continue;
+            }
+            let mut idxs = vec![0usize];
+            if elems.len() > 1 {
+                idxs.push(elems.len() - 1);
+            }
+            for i in idxs {
+                let mut leaves = vec![];
+                flip_leaves(&elems[i], &mut vec![i], &mut leaves);
+                if leaves.is_empty() {
+                    continue;
+                }
+                for occ in [None, Some(0)] {
+                    out.push(mk(vec![Fault { target: Target::Label { label: prev.clone(), occ, to: None }, mutation: MsgMut::Multi(leaves.clone()) }]));
+                }
+                if i == 0 && leaves.len() > 1 {
+                    for lf in leaves.iter().take(4) {
+                        out.push(mk(vec![Fault { target: Target::Label { label: prev.clone(), occ: None, to: None }, mutation: MsgMut::Tree { path: lf.0.clone(), m: lf.1.clone() } }]));
+                    }
+                }
+            }
+        }
+    }
+    out
+}
+
 pub fn enumerate_cases(base: &MpcCase, corrupt: usize, tree_cap: usize, tier: Tier) -> Result<Vec<Case>, String> {
     let tmpl = run_mpc(base, Adversary::default(), &ExecCfg { record_probes: false, ..Default::default() });
     if let Err(e) = check_codec(&tmpl.res.msgs) {
@@ -194,6 +266,9 @@ pub fn enumerate_cases(base: &MpcCase, corrupt: usize, tree_cap: usize, tier: Ti
         }
     }
     cases.extend(tap_cases(base, corrupt));
+    if n == 2 || tier == Tier::Thorough {
+        cases.extend(rush_cases(base, corrupt, &tmpl.res.msgs));
+    }
     Ok(cases)
 }
 
@@ -212,10 +287,10 @@ pub fn test_case(case: &Case) -> Result<CaseInfo, Fail> {
             let mclass = a.faults.first().map(|f| crate::checks::c08::tree_mut_name(&f.mutation)).unwrap_or_else(|| "tap".into());
             return Err(Fail::new(
                 format!("C02|wrong-output|{}|{}", case.label, mclass),
-                format!("{e}; corrupt party {} (p_eval {}, p_out {:?}), message {:?}, fault {:?} taps {:?}, attempt {rep}", a.corrupt, a.base.p_eval, a.base.p_out, case.label, a.faults, a.taps),
+                format!("{e}; corrupt party {} (p_eval {}, p_out {:?}), message {:?}, fault {:?} taps {:?} rush {:?}, attempt {rep}", a.corrupt, a.base.p_eval, a.base.p_out, case.label, a.faults, a.taps, a.rush),
             ));
         }
-        let consumed = tampered_consumed(&res.msgs, a.corrupt) || !a.taps.is_empty() || a.faults.iter().any(|f| matches!(f.mutation, MsgMut::Drop));
+        let consumed = tampered_consumed(&res.msgs, a.corrupt) || !a.taps.is_empty() || (!a.rush.is_empty() && res.msgs.iter().any(|m| m.held && m.consumed)) || a.faults.iter().any(|f| matches!(f.mutation, MsgMut::Drop));
         consumed_any |= consumed;
         if rep == 0 {
             let oc: Vec<&str> = a.honest_parties().iter().map(|p| res.outcomes[*p].class()).collect();
@@ -231,7 +306,7 @@ pub fn test_case(case: &Case) -> Result<CaseInfo, Fail> {
     classes.push(format!("n={}", a.base.n()));
     info.classes = classes;
     info.nontrivial = (consumed_any && strict).then(|| hash_of(&serde_json::to_string(a).unwrap()));
-    info.sample = Some(json!({"n": a.base.n(), "corrupt": a.corrupt, "p_eval": a.base.p_eval, "p_out": a.base.p_out, "honest_inputs": a.base.inputs, "label": case.label, "faults": a.faults, "taps": a.taps, "allowed_set_size": allowed.len(), "output_bits": out_bits}));
+    info.sample = Some(json!({"n": a.base.n(), "corrupt": a.corrupt, "p_eval": a.base.p_eval, "p_out": a.base.p_out, "honest_inputs": a.base.inputs, "label": case.label, "faults": a.faults, "taps": a.taps, "rush": a.rush, "allowed_set_size": allowed.len(), "output_bits": out_bits}));
     Ok(info)
 }
 
@@ -269,7 +344,7 @@ pub fn all_cases(tier: Tier, seed: u64) -> Result<Vec<Case>, String> {
                 let mut k = 0usize;
                 cases.retain(|c| {
                     k += 1;
-                    is_online(&c.label) || c.label.starts_with("tap:") || (k + seed as usize) % 4 == 0
+                    is_online(&c.label) || c.label.starts_with("tap:") || c.label.starts_with("rush:") || (k + seed as usize) % 4 == 0
                 });
                 for c in cases.iter_mut() {
                     if c.repeat > 3 {
@@ -300,7 +375,7 @@ fn spread_inputs(n: usize, corrupt: usize, code: usize, cbits: usize) -> Vec<Vec
 
 pub fn run(tier: Tier, seed: u64) -> i32 {
     let ctx = Ctx::new("C02", tier, seed, "fault_enumeration");
-    ctx.set_rule("systematic enumeration: corrupted party = each single party (as evaluator and as garbler, n=2 all role assignments, n=3 sampled; output set with and without the cheater) x every message it sends x value-changing and omitting mutations on the decoded value tree (every bool flipped, every Option toggled, every 128-bit field bit-flipped/randomised, every sequence shortened/emptied at each nesting level), bit flips / truncation on the raw bytes, drops, per-recipient and all-recipient (n=3), plus armed taps (consistent lies about own input [negative control], own d-value share, own Beaver d/e share, garbled row share bit, attacker-chosen garbled row plaintext [value bit / MAC / label bit flipped, MAC vector of every length], aShare decommitment); honest inputs enumerated (rotating per case in quick, exhaustive in thorough); online-phase omissions repeated 4x because their effect depends on a coin; oracle: allowed set {f(x_honest, x')} by exhaustive enumeration of the cheater's input bits with the clear-text interpreter; every honest Ok must lie in it and all honest Oks agree; non-trivial = altered message consumed by an honest party (or tap/drop) and allowed set a strict subset of {0,1}^out; evaluations counts engine executions");
+    ctx.set_rule("systematic enumeration: corrupted party = each single party (as evaluator and as garbler, n=2 all role assignments, n=3 sampled; output set with and without the cheater) x every message it sends x value-changing and omitting mutations on the decoded value tree (every bool flipped, every Option toggled, every 128-bit field bit-flipped/randomised, every sequence shortened/emptied at each nesting level), bit flips / truncation on the raw bytes, drops, per-recipient and all-recipient (n=3), plus armed taps (consistent lies about own input [negative control], own d-value share, own Beaver d/e share, garbled row share bit, attacker-chosen garbled row plaintext [value bit / MAC / label bit flipped, MAC vector of every length], aShare decommitment), plus a rushing cheater (n=2; n=3 in thorough): in every symmetric round it waits for the honest messages and answers with their XOR / reflection, alone and combined with a value change in one of the three message kinds sent before that round; honest inputs enumerated (rotating per case in quick, exhaustive in thorough); online-phase omissions repeated 4x because their effect depends on a coin; oracle: allowed set {f(x_honest, x')} by exhaustive enumeration of the cheater's input bits with the clear-text interpreter; every honest Ok must lie in it and all honest Oks agree; non-trivial = altered message consumed by an honest party (or tap/drop) and allowed set a strict subset of {0,1}^out; evaluations counts engine executions");
     ctx.assume("single corrupted party; adversary = honest code + outbound proxy + taps (DESIGN 2.3)");
     let all = match all_cases(tier, seed) {
         Ok(a) => a,
